@@ -3,7 +3,7 @@ C19 — helper lemmas.
 -/
 import LimnoriaModel.C19.Model
 namespace C19
-open Py
+open Py List
 
 /-- what the property theorems need from the extracted tables -/
 def TablesOk (high low : List Str) (join : Str) : Prop :=
@@ -11,5 +11,370 @@ def TablesOk (high low : List Str) (join : Str) : Prop :=
 
 instance (high low : List Str) (join : Str) : Decidable (TablesOk high low join) := by
   unfold TablesOk; infer_instance
+
+/-- `count x [m]`, kept opaque so that `omega` sees an atom -/
+def one (x m : Msg) : Nat := count x [m]
+
+theorem count_cons_one (x m : Msg) (l : List Msg) : count x (m :: l) = one x m + count x l := by
+  simp [one, count_cons]; omega
+
+/-! ### projections of a trace -/
+
+/-- every message that entered a queue -/
+def accOf : List Ev → List Msg
+  | [] => []
+  | .accepted _ m :: r => m :: accOf r
+  | _ :: r => accOf r
+
+/-- messages handed to the driver (as they were when dequeued) -/
+def tookOf : List Ev → List Msg
+  | [] => []
+  | .took _ s _ _ :: r => s :: tookOf r
+  | _ :: r => tookOf r
+
+/-- messages an outFilter dropped -/
+def dropOf : List Ev → List Msg
+  | [] => []
+  | .dropped _ s _ :: r => s :: dropOf r
+  | _ :: r => dropOf r
+
+/-- messages swallowed by the echo-emulation assertion -/
+def lostOf : List Ev → List Msg
+  | [] => []
+  | .lost _ s _ _ :: r => s :: lostOf r
+  | _ :: r => lostOf r
+
+/-- messages thrown away by `reset()` -/
+def discOf : List Ev → List Msg
+  | [] => []
+  | .discarded ms :: r => ms ++ discOf r
+  | _ :: r => discOf r
+
+/-- everything that left the queues, whichever way -/
+def goneOf : List Ev → List Msg
+  | [] => []
+  | .took _ s _ _ :: r => s :: goneOf r
+  | .dropped _ s _ :: r => s :: goneOf r
+  | .lost _ s _ _ :: r => s :: goneOf r
+  | .discarded ms :: r => ms ++ goneOf r
+  | _ :: r => goneOf r
+
+theorem accOf_append (a b : List Ev) : accOf (a ++ b) = accOf a ++ accOf b := by
+  induction a with
+  | nil => rfl
+  | cons e r ih => cases e <;> simp [accOf, ih]
+
+theorem goneOf_append (a b : List Ev) : goneOf (a ++ b) = goneOf a ++ goneOf b := by
+  induction a with
+  | nil => rfl
+  | cons e r ih => cases e <;> simp [goneOf, ih]
+
+theorem tookOf_append (a b : List Ev) : tookOf (a ++ b) = tookOf a ++ tookOf b := by
+  induction a with
+  | nil => rfl
+  | cons e r ih => cases e <;> simp [tookOf, ih]
+
+theorem dropOf_append (a b : List Ev) : dropOf (a ++ b) = dropOf a ++ dropOf b := by
+  induction a with
+  | nil => rfl
+  | cons e r ih => cases e <;> simp [dropOf, ih]
+
+theorem lostOf_append (a b : List Ev) : lostOf (a ++ b) = lostOf a ++ lostOf b := by
+  induction a with
+  | nil => rfl
+  | cons e r ih => cases e <;> simp [lostOf, ih]
+
+theorem discOf_append (a b : List Ev) : discOf (a ++ b) = discOf a ++ discOf b := by
+  induction a with
+  | nil => rfl
+  | cons e r ih => cases e <;> simp [discOf, ih]
+
+/-- `goneOf` is the four categories together -/
+theorem goneOf_count (x : Msg) (tr : List Ev) :
+    count x (goneOf tr) = count x (tookOf tr) + count x (dropOf tr) + count x (lostOf tr)
+      + count x (discOf tr) := by
+  induction tr with
+  | nil => rfl
+  | cons e r ih =>
+    cases e <;> simp only [goneOf, tookOf, dropOf, lostOf, discOf, count_cons_one, count_append, ih] <;> omega
+
+/-! ### conservation, one step -/
+
+/-- normalise counts to atoms (`count x l` for variables `l`, `one x m`) and finish with `omega` -/
+macro "cnt" : tactic =>
+  `(tactic| (simp only [Irc.pending, Queue.all, Queue.empty, accOf, goneOf, killEvents, count_append,
+      count_cons_one, count_nil] at * <;> omega))
+
+/-- pending-before + accepted = gone + pending-after, as multisets (counted per message) -/
+def Conserves (s : Irc) (r : Irc × List Ev) : Prop :=
+  ∀ x : Msg, count x s.pending + count x (accOf r.2) = count x (goneOf r.2) + count x r.1.pending
+
+theorem Conserves.trans {s : Irc} {s1 s2 : Irc} {e1 e2 : List Ev}
+    (h1 : Conserves s (s1, e1)) (h2 : Conserves s1 (s2, e2)) : Conserves s (s2, e1 ++ e2) := by
+  intro x
+  have a := h1 x
+  have b := h2 x
+  simp only [accOf_append, goneOf_append, count_append] at *
+  omega
+
+theorem Conserves.refl (s : Irc) : Conserves s (s, []) := by
+  intro x; cnt
+
+theorem Conserves.of_pending {s s0 : Irc} {r : Irc × List Ev} (h : s0.pending = s.pending)
+    (hc : Conserves s0 r) : Conserves s r := by
+  intro x; have := hc x; rw [h] at this; exact this
+
+theorem enqueue_true_count {dup : Bool} {q q' : Queue} {m : Msg}
+    (h : q.enqueue dup m = (q', true)) (x : Msg) :
+    count x q'.all = count x q.all + one x m := by
+  unfold Queue.enqueue at h
+  split at h
+  · cases h
+  · split at h <;> (injection h with h1 _; subst h1; cnt)
+
+theorem enqueue_false_eq {dup : Bool} {q q' : Queue} {m : Msg}
+    (h : q.enqueue dup m = (q', false)) : q' = q := by
+  unfold Queue.enqueue at h
+  split at h
+  · injection h with h1 _; exact h1.symm
+  · split at h <;> (injection h with _ h2; cases h2)
+
+theorem enqueue_lastJoin {dup : Bool} {q q' : Queue} {m : Msg} {b : Bool}
+    (h : q.enqueue dup m = (q', b)) : q'.lastJoin = q.lastJoin := by
+  unfold Queue.enqueue at h
+  split at h
+  · injection h with h1 _; subst h1; rfl
+  · split at h <;> (injection h with h1 _; subst h1; rfl)
+
+theorem queueMsg_conserves (s : Irc) (m : Msg) : Conserves s (queueMsg s m) := by
+  unfold queueMsg
+  split
+  · split
+    · rename_i q' h
+      intro x
+      have := enqueue_true_count h x
+      cnt
+    · intro x; cnt
+  · intro x; cnt
+
+theorem sendMsg_conserves (s : Irc) (m : Msg) : Conserves s (sendMsg s m) := by
+  unfold sendMsg
+  split
+  · intro x; cnt
+  · intro x; cnt
+
+theorem dequeue_msg_count {limit now : Nat} {q q' : Queue} {m : Msg}
+    (h : q.dequeue limit now = (q', .msg m)) (x : Msg) :
+    count x q.all = one x m + count x q'.all := by
+  unfold Queue.dequeue at h
+  split at h
+  · rename_i m' hs hh
+    injection h with h1 h2; injection h2 with h2; subst h1 h2
+    simp only [Queue.all, hh]; cnt
+  · rename_i hh
+    split at h
+    · rename_i m' ns hn
+      injection h with h1 h2; injection h2 with h2; subst h1 h2
+      simp only [Queue.all, hh, hn]; cnt
+    · rename_i hn
+      split at h
+      · injection h with _ h2; cases h2
+      · rename_i m' ls hl
+        split at h
+        · split at h
+          · injection h with h1 h2; injection h2 with h2; subst h1 h2
+            simp only [Queue.all, hh, hn, hl]; cnt
+          · injection h with _ h2; cases h2
+        · injection h with h1 h2; injection h2 with h2; subst h1 h2
+          simp only [Queue.all, hh, hn, hl]; cnt
+
+theorem dequeue_rotated_count {limit now : Nat} {q q' : Queue} {m : Msg}
+    (h : q.dequeue limit now = (q', .rotated m)) (x : Msg) :
+    count x q'.all = count x q.all := by
+  unfold Queue.dequeue at h
+  split at h
+  · injection h with _ h2; cases h2
+  · rename_i hh
+    split at h
+    · injection h with _ h2; cases h2
+    · rename_i hn
+      split at h
+      · injection h with _ h2; cases h2
+      · rename_i m' ls hl
+        split at h
+        · split at h
+          · injection h with _ h2; cases h2
+          · injection h with h1 h2; subst h1
+            simp only [Queue.all, hh, hn, hl]; cnt
+        · injection h with _ h2; cases h2
+
+theorem dequeue_nothing_eq {limit now : Nat} {q q' : Queue}
+    (h : q.dequeue limit now = (q', .nothing)) : q' = q := by
+  unfold Queue.dequeue at h
+  split at h
+  · injection h with _ h2; cases h2
+  · split at h
+    · injection h with _ h2; cases h2
+    · split at h
+      · injection h with h1 _; exact h1.symm
+      · split at h
+        · split at h <;> (injection h with _ h2; cases h2)
+        · injection h with _ h2; cases h2
+
+/-! `deliver` touches neither queue -/
+
+theorem deliver_fast (s : Irc) (m : Msg) : (deliver s m).1.fast = s.fast := by
+  unfold deliver; split
+  · rfl
+  · dsimp only; split
+    · split <;> rfl
+    · rfl
+
+theorem deliver_queue (s : Irc) (m : Msg) : (deliver s m).1.queue = s.queue := by
+  unfold deliver; split
+  · rfl
+  · dsimp only; split
+    · split <;> rfl
+    · rfl
+
+theorem deliver_pending (s : Irc) (m : Msg) : (deliver s m).1.pending = s.pending := by
+  simp only [Irc.pending, deliver_fast, deliver_queue]
+
+theorem noMsg_state (s : Irc) : (noMsg s).1 = s := by
+  unfold noMsg; split <;> rfl
+
+theorem noMsg_events (s : Irc) : (noMsg s).2 = [] ∨ (noMsg s).2 = killEvents := by
+  unfold noMsg; split
+  · right; rfl
+  · left; rfl
+
+theorem noMsg_conserves (s : Irc) : Conserves s (noMsg s) := by
+  unfold noMsg; split <;> (intro x; cnt)
+
+theorem sendConnect_conserves (cs : List Content) : ∀ s : Irc, Conserves s (sendConnect s cs) := by
+  induction cs with
+  | nil => intro s; exact Conserves.refl s
+  | cons c cs ih =>
+    intro s
+    unfold sendConnect
+    dsimp only
+    have h1 : Conserves s (sendMsg { s with nextOid := s.nextOid + 1 } ⟨.int s.nextOid, c⟩) :=
+      sendMsg_conserves { s with nextOid := s.nextOid + 1 } ⟨.int s.nextOid, c⟩
+    exact Conserves.trans h1 (ih _)
+
+theorem queueConnectMessages_conserves (s : Irc) : Conserves s (queueConnectMessages s) := by
+  unfold queueConnectMessages
+  split
+  · intro x; cnt
+  · exact sendConnect_conserves _ s
+
+theorem reset_conserves (s : Irc) : Conserves s (reset s) := by
+  unfold reset
+  dsimp only
+  intro x
+  have h := queueConnectMessages_conserves
+    { s with lastTake := 0, afterConnect := false, lastPing := s.now, outstandingPing := false,
+             echoAcked := false, queue := Queue.empty, fast := [] } x
+  cnt
+
+theorem pingBranch_conserves (s : Irc) : Conserves s (pingBranch s) := by
+  unfold pingBranch
+  split
+  · split
+    · dsimp only
+      intro x
+      have := reset_conserves s x
+      cnt
+    · split
+      · dsimp only
+        refine Conserves.of_pending ?_ (queueMsg_conserves _ _)
+        rfl
+      · exact Conserves.refl s
+  · exact Conserves.refl s
+
+theorem deliver_pending' {s s1 : Irc} {m : Msg} {d : Delivery} (h : deliver s m = (s1, d)) :
+    s1.pending = s.pending := by
+  have := deliver_pending s m; rw [h] at this; exact this
+
+theorem takeAux_conserves : ∀ (fuel : Nat) (s : Irc), Conserves s (takeAux fuel s)
+  | 0, s => Conserves.refl s
+  | fuel + 1, s => by
+    unfold takeAux
+    split
+    · rename_i m rest hf
+      split
+      · rename_i s1 o hd
+        have hp := deliver_pending' hd
+        intro x; simp only [Irc.pending] at hp; simp only [Irc.pending, hp, hf]; cnt
+      · rename_i s1 o hd
+        have hp := deliver_pending' hd
+        intro x; simp only [Irc.pending] at hp; simp only [Irc.pending, hp, hf]; cnt
+      · rename_i s1 hd
+        have hp := deliver_pending' hd
+        have ih := takeAux_conserves fuel s1
+        intro x
+        have := ih x
+        simp only [Irc.pending] at hp; simp only [Irc.pending, hp, hf] at *; cnt
+    · rename_i hf
+      split
+      · split
+        · dsimp only
+          intro x
+          have := noMsg_conserves s x
+          cnt
+        · split
+          · rename_i q' m hq
+            have hc := dequeue_msg_count hq
+            split
+            · rename_i s1 o hd
+              have hp := deliver_pending' hd
+              intro x; have := hc x
+              simp only [Irc.pending] at hp; simp only [Irc.pending, hp, hf]; cnt
+            · rename_i s1 o hd
+              have hp := deliver_pending' hd
+              intro x; have := hc x
+              simp only [Irc.pending] at hp; simp only [Irc.pending, hp, hf]; cnt
+            · rename_i s1 hd
+              have hp := deliver_pending' hd
+              have ih := takeAux_conserves fuel s1
+              intro x
+              have := ih x; have := hc x
+              simp only [Irc.pending] at hp; simp only [Irc.pending, hp, hf] at *; cnt
+          · rename_i q' m hq
+            have hc := dequeue_rotated_count hq
+            dsimp only
+            intro x
+            have := noMsg_conserves { s with lastTake := s.now, queue := q' } x
+            have := hc x
+            simp only [Irc.pending, hf] at *; cnt
+          · rename_i q' hq
+            have hc := dequeue_nothing_eq hq
+            subst hc
+            intro x
+            have := noMsg_conserves { s with lastTake := s.now, queue := s.queue } x
+            simp only [Irc.pending, hf] at *; cnt
+      · dsimp only
+        exact Conserves.trans (pingBranch_conserves s) (noMsg_conserves _)
+
+theorem takeMsg_conserves (s : Irc) : Conserves s (takeMsg s) := takeAux_conserves _ s
+
+theorem step_conserves (s : Irc) (op : Op) : Conserves s (step s op) := by
+  cases op with
+  | queue m => exact queueMsg_conserves s m
+  | send m => exact sendMsg_conserves s m
+  | take => exact takeMsg_conserves s
+  | die => unfold step die; dsimp only; split <;> (intro x; cnt)
+  | reset => exact reset_conserves s
+  | tick dt => intro x; simp only [step]; cnt
+  | connected => intro x; simp only [step]; cnt
+  | pong => intro x; simp only [step]; cnt
+  | capEcho b => intro x; simp only [step]; cnt
+  | config c => intro x; simp only [step]; cnt
+
+theorem run_conserves : ∀ (ops : List Op) (s : Irc), Conserves s (run s ops)
+  | [], s => Conserves.refl s
+  | op :: ops, s => by
+    unfold run
+    exact Conserves.trans (step_conserves s op) (run_conserves ops _)
 
 end C19
